@@ -571,7 +571,7 @@ def invmap(indices, length, missing=-1):
     '''
 
     invmap = numpy.full(length, missing)
-    invmap[numpy.asarray(indices)] = numpy.arange(len(indices))
+    invmap[numpy.asarray(indices, dtype=int)] = numpy.arange(len(indices))
     return invmap
 
 
